@@ -343,6 +343,48 @@ func (V *Verifier) solveOne(i int, ob *Obligation, opts SolveOpts) {
 		finish(first)
 		return
 	}
+	// stage 1b: the same goal from the most recent facts only. Dropping hypotheses is sound for a validity goal (what
+	// follows from fewer facts follows from all of them); it helps where the full context (program-wide quantified
+	// invariants) drowns an argument that only needs the last few assertions.
+	if want == "unsat" && !conclusive(v) && len(ob.Facts) > 60 {
+		for _, hn := range [][2]int{{0, 40}, {0, 120}, {30, 120}} {
+			h, n := hn[0], hn[1]
+			if len(ob.Facts) <= h+n {
+				break
+			}
+			cp := *ob
+			// (the first facts are the preconditions: the third variant keeps them next to the most recent facts)
+			cp.Facts = append(append([]string(nil), ob.Facts[:h]...), ob.Facts[len(ob.Facts)-n:]...)
+			sfile := fmt.Sprintf("%s.first%d.last%d.smt2", file, h, n)
+			if err := os.WriteFile(sfile, []byte(V.vcText(&cp, false)), 0o644); err != nil {
+				break
+			}
+			var okNames []string
+			for k, sp := range solvers {
+				if k > 0 && !opts.TwoSolver {
+					break
+				}
+				sv, sout, ssecs := runSolver(sp, sfile, 3)
+				ob.Time += ssecs
+				outputs = append(outputs, fmt.Sprintf("[%s on the first %d + last %d facts %.2fs] %s", sp.name, h, n, ssecs, strings.TrimSpace(firstLines(sout, 1))))
+				if sv == "unsat" {
+					okNames = append(okNames, sp.name)
+				}
+				if opts.TwoSolver && len(okNames) >= 2 {
+					break
+				}
+			}
+			if !opts.KeepVCs {
+				os.Remove(sfile)
+			}
+			if (opts.TwoSolver && len(okNames) >= 2) || (!opts.TwoSolver && len(okNames) >= 1) {
+				ob.Status = "proved"
+				ob.Solver = fmt.Sprintf("%s(first-%d+last-%d-facts)", strings.Join(okNames, "+"), h, n)
+				ob.Output = strings.Join(outputs, "\n")
+				return
+			}
+		}
+	}
 	// stage 2: the whole portfolio in parallel with the full budget
 	ch := make(chan ans, len(solvers))
 	for _, sp := range solvers {
